@@ -39,7 +39,7 @@ from vlib.oracles import rng_for
 PROPERTY = "C20"
 PROP_NO = 20
 RULE = ("plan = (dims sampled from {1..9,12,13,16,17}^{1..4} with ntransform*prod(dims) <= 20000, ntransform in "
-        "{1,2,3,7}, fwd/bwd x c2c/r2c x in-place/out-of-place x batch first/last cycled so that all 16 flag "
+        "{1,2,3,7}; plus plans-big cases with odd sizes from {9..41,171,255} and 33000-130000 elements; fwd/bwd x c2c/r2c x in-place/out-of-place x batch first/last cycled so that all 16 flag "
         "classes are hit equally, dims passed as list / tuple / ndarray); random normal input (Hermitian-consistent "
         "half spectrum for c2r); a plan is non-trivial when prod(dims) >= 2, the numpy reference is non-zero and "
         "the reference double passed its guard on the documented layout of that plan; distinct = distinct (flag "
@@ -57,7 +57,7 @@ ASSUMPTIONS = [
     "c2r inputs are Hermitian-consistent (treatment of the non-Hermitian part is implementation-defined in FFTW)",
     "inputs are C-contiguous arrays of the advertised dtype (float64 for r2c forward, complex128 otherwise); "
     "behaviour for other dtypes / non-contiguous views is recorded as an observation tag only",
-    "MKL back end, MPI plans and FFTW's own threading are out of reach; total element count per plan <= 20000",
+    "MKL back end, MPI plans and FFTW's own threading are out of reach; total element count per plan <= 20000 (130000 in the plans-big cases)",
     "FFTInterpolator is exercised with odd meshes only (no Nyquist ambiguity); its mesh-mapping rules for even "
     "meshes are outside C20",
 ]
@@ -73,6 +73,8 @@ TOL_REPEAT = 1e-14   # same plan, same input, again (threaded copy loops: no bit
 SIZES = [1, 2, 3, 4, 5, 6, 7, 8, 9, 12, 13, 16, 17]
 NTS = [1, 2, 3, 7]
 MAX_ELEMS = 20000
+BIG_SIZES = [9, 11, 15, 19, 21, 23, 27, 29, 31, 37, 41, 171, 255]
+BIG_MIN, BIG_MAX = 33000, 130000
 PRIMES = (2, 3, 5, 7, 13, 17)
 SENT = 7.25  # sentinel for memory the double must not write
 
@@ -102,6 +104,8 @@ def gen_cases(tier, seed):
     for i in range(nas):
         add("plans", "plans", per_as, variant="asan", threads=5 if i % 3 == 2 else 2, weight=2.0 * per_as,
             flag0=(i * per_as + 5 + seed) % 16)
+    for i in range(2 if q else 16):  # large plans (the stand-in DFT is separable, so these are cheap)
+        add("plans", "plans-big", 8, threads=[5, 2, 7, 16][i % 4], weight=30, flag0=(i * 8 + seed) % 16, big=True)
     nd, per_d = (4, 40) if q else (16, 120)
     for i in range(nd):
         add("double", "double", per_d, threads=2, weight=per_d / 3.0)
@@ -336,6 +340,16 @@ def _draw_dims(rng, nt, rank=None, sizes=SIZES, max_elems=MAX_ELEMS):
     return [int(v) for v in rng.choice([1, 2, 3, 4, 5], size=rank)]
 
 
+def _draw_big(rng, nt):
+    """Plans of 33 000 - 130 000 elements with odd sizes: beyond any per-thread chunking threshold of the copy loops."""
+    for _ in range(500):
+        rank = int(rng.integers(2, 4))
+        dims = [int(v) for v in rng.choice(BIG_SIZES, size=rank)]
+        if BIG_MIN <= nt * int(np.prod(dims)) <= BIG_MAX:
+            return dims
+    return [37, 31, 29]
+
+
 def _run_double(case, rec, rng):
     dl = _dl()
     first = None
@@ -453,7 +467,7 @@ def _run_plans(case, rec, rng):
         f = (case["flag0"] + j) % 16
         fwd, r2c, inplace, bf = bool(f & 1), bool(f & 2), bool(f & 4), bool(f & 8)
         nt = int(rng.choice(NTS))
-        dims = _draw_dims(rng, nt)
+        dims = _draw_big(rng, nt) if case.get("big") else _draw_dims(rng, nt)
         cls = _cls(fwd, r2c, inplace, bf)
         N = int(np.prod(dims))
         rec.tag("plan_class", cls)
